@@ -53,6 +53,33 @@ def opC15Snake (j : Json) : Except String Json := do
   let names ← (← getArrL j "names").mapM fun v => do pure (← v.getStr?).toList
   pure (Json.mkObj [("snake", jarr (names.map fun n => jstr (toSnakeCase n)))])
 
-def opsC15 : List (String × (Json → Except String Json)) := [("c15", opC15), ("c15.snake", opC15Snake)]
+open Model.Metadata in
+def opC15Fix (j : Json) : Except String Json := do
+  let tbl ← (← getArrL j "table").mapM fun e => do
+    match (← e.getArr?).toList with
+    | [Json.str k, Json.arr ps] => pure (k.toList, ← ps.toList.mapM fun p => do pure (← p.getStr?).toList)
+    | _ => throw "bad table row"
+  let calls ← (← getArrL j "calls").mapM fun c => do
+    let key ← getStrL c "key"
+    let args ← (← getArrL c "args").mapM fun a => do
+      match (← a.getArr?).toList with
+      | [Json.null, v] => pure (⟨none, ← v.getNat?⟩ : Arg)
+      | [Json.str k, v] => pure (⟨some k.toList, ← v.getNat?⟩ : Arg)
+      | _ => throw "bad arg"
+    pure (key, args)
+  let pairs (l : List (Str × Nat)) : Json := jarr (l.map fun x => jarr [jstr x.1, jnat x.2])
+  pure (Json.mkObj [("results", jarr (calls.map fun (key, args) =>
+    match fixCall tbl key args with
+    | .unchanged => Json.null
+    | .rewritten rq ctrl => Json.mkObj [("request", pairs rq), ("ctrl", pairs ctrl)]))])
+
+open Model.Metadata in
+def opC15Table (j : Json) : Except String Json := do
+  let api ← c15ApiOfJson (← j.getObjVal? "api")
+  let iam ← c15Bool j "add_iam"
+  pure (Json.mkObj [("fixup", jarr ((fixupTableOpt api iam).map fun e => jarr [jstr e.1, jarr (e.2.map jstr)]))])
+
+def opsC15 : List (String × (Json → Except String Json)) :=
+  [("c15", opC15), ("c15.snake", opC15Snake), ("c15.fix", opC15Fix), ("c15.table", opC15Table)]
 
 end GapicModel.Driver
